@@ -391,7 +391,9 @@ fn main() {
       let deep = universe_name == "deep";
       let mut ops: Vec<MapOp> = vec![];
       for k in &ks {
-        ops.push(MapOp::Insert(*k, 0));
+        // deep: one value per key, but a different one for every key (a value that ends up under
+        // the wrong key must be visible)
+        ops.push(MapOp::Insert(*k, if deep { *k * 10 } else { 0 }));
         if !deep {
           ops.push(MapOp::Insert(*k, 1));
         }
@@ -569,6 +571,86 @@ fn main() {
           drivers.push((format!("map paths chunk {ci}"), text));
         }
       }
+    }
+
+    // =================== Map size ladder: large lopsided maps ===================
+    {
+      let sizes: Vec<i32> = if thorough { (1..=96).collect() } else { vec![1, 2, 3, 5, 8, 13, 21, 34, 50, 51, 64] };
+      let empty = c.h("emptyMap", vec![]).unwrap_or_else(|e| machinery_failure(&e));
+      let mut ladder_checks = 0u64;
+      let mut built: Vec<(String, Value, BTreeMap<i32, i32>)> = vec![];
+      for n in &sizes {
+        for (bname, order) in [
+          ("ascending", (1..=*n).collect::<Vec<i32>>()),
+          ("descending", (1..=*n).rev().collect::<Vec<i32>>()),
+          ("outside-in", (0..*n).map(|i| if i % 2 == 0 { 1 + i / 2 } else { *n - i / 2 }).collect::<Vec<i32>>()),
+        ] {
+          let mut v = empty.clone();
+          let mut model: BTreeMap<i32, i32> = BTreeMap::new();
+          let mut ok = true;
+          for k in &order {
+            match apply_map_op(&mut c, &v, &MapOp::Insert(*k, *k * 10)) {
+              Ok(nv) => {
+                v = nv;
+                model.insert(*k, *k * 10);
+              }
+              Err(e) => {
+                violations.push(("map:insert:abnormal-ending".into(), format!("insert({k}) ended with {e} [{bname} build of {n} keys]"), json!({"collection": "Map", "build": bname, "n": n})));
+                ok = false;
+                break;
+              }
+            }
+          }
+          if !ok {
+            continue;
+          }
+          let keys_here: Vec<i32> = (0..=*n + 1).collect();
+          let ctx = format!("size ladder: {bname} inserts of 1..{n} (value = 10 x key)");
+          for (sig, msg) in check_map_state(&mut c, &v, &model, &keys_here, &ctx) {
+            violations.push((sig, msg, json!({"collection": "Map", "build": bname, "n": n})));
+          }
+          ladder_checks += 1;
+          if built.len() < 40 || *n >= 30 {
+            built.push((format!("{bname} {n}"), v, model));
+          }
+        }
+      }
+      // binary operations between big maps of different shapes and sizes
+      let picks: Vec<usize> = (0..built.len()).step_by((built.len() / 14).max(1)).collect();
+      for a in &picks {
+        for b in &picks {
+          let (na, va, ma) = &built[*a];
+          let (nb, vb, mb) = &built[*b];
+          let ents = |j: &J| -> Vec<(i32, i32)> { tree_info(j, true).entries.iter().map(|(x, y)| (*x, y.unwrap())).collect() };
+          let ctx = format!("size ladder: A = {na}, B = {nb}");
+          let r = c.m(va, "union", vec![vb.clone()]);
+          let mut want: BTreeMap<i32, i32> = mb.clone();
+          for (k, x) in ma {
+            want.insert(*k, *x);
+          }
+          match r {
+            Ok(x) => {
+              let got = ents(&decode(&x));
+              if got != want.iter().map(|(k, x)| (*k, *x)).collect::<Vec<_>>() {
+                violations.push(("map:union".into(), format!("union differs from the model [{ctx}]"), json!({"collection": "Map", "A": na, "B": nb})));
+              }
+            }
+            Err(e) => violations.push(("map:union:abnormal-ending".into(), format!("union ended with {e} [{ctx}]"), json!({"collection": "Map"}))),
+          }
+          let f = c.h("merger", vec![]).unwrap();
+          match c.m(va, "merge", vec![vb.clone(), f]) {
+            Ok(x) => {
+              let got = ents(&decode(&x));
+              let want: Vec<(i32, i32)> = ma.iter().map(|(k, x)| (*k, x + mb.get(k).copied().unwrap_or(0))).collect();
+              if got != want {
+                violations.push(("map:merge".into(), format!("merge differs from the model [{ctx}]"), json!({"collection": "Map", "A": na, "B": nb})));
+              }
+            }
+            Err(e) => violations.push(("map:merge:abnormal-ending".into(), format!("merge ended with {e} [{ctx}]"), json!({"collection": "Map"}))),
+          }
+        }
+      }
+      report.insert("map_size_ladder".into(), json!({"sizes": sizes.len(), "builds": ladder_checks, "binary_pairs": picks.len() * picks.len()}));
     }
 
     // =================== Set: the same explicit-state search ===================
